@@ -539,8 +539,10 @@ class Check:
             "broken": [{"kind": k, "name": n} for k, n, _ in self.broken],
             "known_findings_hit": known,
         }
-        if self.exhaustive is not None:
+        if isinstance(self.exhaustive, bool):
             cov["exhaustive"] = self.exhaustive
+        elif self.exhaustive is not None:
+            cov["exhaustive_scope"] = self.exhaustive      # which finite sub-spaces this run enumerated completely
         ev = {"property_id": self.prop, "tier": self.tier, "seed": self.seed, "level": "proof", "coverage": cov,
               "assumptions": self.assumptions, "wall_s": round(time.time() - self.t0, 2), "violations": violations}
         os.makedirs(os.path.join(OUT, "evidence"), exist_ok=True)
